@@ -122,6 +122,7 @@ func blsOracle(ids []uint16, t int, shares map[uint16][]byte, r *prng.Rand, lg b
 	// the digests are handed over in one buffer that is overwritten for every message, as a caller does that
 	// computes them with h.Sum(buf[:0]): a signer must not hold on to the caller's slice
 	buf := make([]byte, 0, 2048)
+	nsub := 0
 	for di, dg := range digests {
 		sigs := map[uint16][]byte{}
 		buf = append(buf[:0], dg...)
@@ -135,6 +136,16 @@ func blsOracle(ids []uint16, t int, shares map[uint16][]byte, r *prng.Rand, lg b
 		subsets(ids, t, func(sub []uint16) {
 			if problem != "" {
 				return
+			}
+			// signatures reach the aggregator in whatever order they arrive: every other subset is handed over in
+			// reverse, signers and signatures alike
+			nsub++
+			if nsub%2 == 0 {
+				rev := make([]uint16, len(sub))
+				for i := range sub {
+					rev[len(sub)-1-i] = sub[i]
+				}
+				sub = rev
 			}
 			var ss [][]byte
 			for _, id := range sub {
